@@ -13,6 +13,7 @@ import (
 	"gitlab.com/yawning/secp256k1-voi/secec"
 	"gitlab.com/yawning/secp256k1-voi/secec/bitcoin"
 
+	"verifharness/gen"
 	"verifharness/hk"
 	"verifharness/mon"
 	"verifharness/oracle"
@@ -155,6 +156,39 @@ func runC14(r *mon.Run) {
 				}
 			}
 			w.Class("c14:signer-opts-variety")
+		}
+		if i%4 == 3 {
+			// hostile (memory safe) auxiliary-randomness readers: one scribbles over the spare
+			// capacity behind the 32 bytes it is asked for - the signature is still
+			// BIP-340 Sign(d, aux, m); one changes the caller's message buffer while the
+			// randomness is read - the signature is then valid for the message before or
+			// after the change, and two such calls never pair one R with two different s
+			w.Class("c14:hostile-reader")
+			so, err := sk.Sign(&fixedReader{data: aux, spill: rng.Bytes(1 + rng.Intn(8)), chunk: gen.Pick(rng, 0, 1, 9)}, msg, nil)
+			if err != nil || !bytes.Equal(so, want) {
+				w.Fail("c14/Sign:reader-spill", fmt.Sprintf("Sign with a reader that scribbles over the spare capacity behind its 32 bytes = %x (err %v), BIP-340 Sign(d, aux, m) = %x", so, err, want), det...)
+			}
+			if len(msg) > 0 {
+				var outs [][]byte
+				posts := [][]byte{rng.Bytes(len(msg)), rng.Bytes(len(msg))}
+				for _, pm := range posts {
+					buf := append([]byte{}, msg...)
+					rdm := &fixedReader{data: aux}
+					rdm.onRead = func() { copy(buf, pm) }
+					sm, err := sk.Sign(rdm, buf, nil)
+					if err != nil {
+						w.Fail("c14/Sign:message-changes", fmt.Sprintf("Sign failed when the message buffer changed during the randomness read: %v", err), det...)
+						continue
+					}
+					if !oracle.BIP340Verify(b32(P.X), msg, sm) && !oracle.BIP340Verify(b32(P.X), pm, sm) {
+						w.Fail("c14/Sign:message-changes", fmt.Sprintf("the message buffer changed from %x to %x during the randomness read; the signature %x is valid for neither (nonce and challenge computed from different snapshots)", msg, pm, sm), append(det, "msg_after", hx(pm))...)
+					}
+					outs = append(outs, sm)
+				}
+				if len(outs) == 2 && bytes.Equal(outs[0][:32], outs[1][:32]) && !bytes.Equal(outs[0][32:], outs[1][32:]) {
+					w.Fail("c14/Sign:message-changes:nonce-reuse", fmt.Sprintf("two Sign calls (same key, aux and initial message; message buffer overwritten with different bytes during the randomness read) share R = %x but have different s: one nonce signed two different challenges", outs[0][:32]), det...)
+				}
+			}
 		}
 		sig, err := sk.Sign(rd, msg, nil)
 		if err != nil {
